@@ -466,7 +466,8 @@ def public_level(case, root: Path, request=None) -> dict:
         if request.get("presplit"):
             task = task.split("f", f=[1, 2])
         if request.get("do_split", True):
-            task = task.split(request["splitter"], container_ndim=request.get("container_ndim"), **request["kwargs"])
+            extra = {"overwrite": True} if request.get("overwrite") else {}
+            task = task.split(request["splitter"], container_ndim=request.get("container_ndim"), **extra, **request["kwargs"])
         if request.get("combiner") is not None:
             task = task.combine(request["combiner"])
         stage = "run"
